@@ -10,7 +10,7 @@ func init() {
 	register(&propDef{
 		id: "C17", title: "Stopping the actor system tears down every actor exactly once",
 		technique: "CFG ordering of the shutdown phases (through the fail-fast chains), intake-gate dominance in doReceive, loop rules on the grain poisoning pass, type-switch set inclusion, deferred-tail rule for the dispatcher",
-		explanation: "Decides: (1) shutdown marks the system as shutting down before any actor is stopped, stops the user guardian subtree first, then poisons the grains, then stops the system actors (topic actor, no-sender, system guardian, root guardian), removes the root node afterwards, and stops the dispatcher only in its deferred tail (workers are alive while actors drain); (2) intake gate: in doReceive, once the system is stopping, a non-system message reaches handleReceivedError and neither mailbox; system messages still pass (PoisonPill must be deliverable); (3) poisonAllGrains sends exactly one PoisonPill to every active grain and then waits for each one's deactivation signal or the context; inactive grains are dropped from the registry without a pill; handlePoisonPill deactivates only an active grain (once); (4) every control message (system-mailbox type) is also a system message (passes the gate): the case list of isControlMessage is a subset of isSystemMessage's; (5) PostStop once per actor follows from C06 (running test under stopLocker) and C09 (children first).",
+		explanation: "Decides: (1) shutdown marks the system as shutting down before any actor is stopped, stops the user guardian subtree first, then poisons the grains, then stops the system actors (topic actor, no-sender, system guardian, root guardian), removes the root node afterwards, and stops the dispatcher only in its deferred tail (workers are alive while actors drain); (2) intake gate: in doReceive, once the system is stopping, a non-system message reaches handleReceivedError and neither mailbox; system messages still pass (PoisonPill must be deliverable); (3) poisonAllGrains sends exactly one PoisonPill to every active grain and then waits for each one's deactivation signal or the context; inactive grains are dropped from the registry without a pill; handlePoisonPill deactivates only an active grain (once); (4) every control message (system-mailbox type) is also a system message (passes the gate): the case list of isControlMessage is a subset of isSystemMessage's; (5) PostStop once per actor follows from C06 (running test under stopLocker) and C09 (children first). Added after seed C17a: the passivation manager is stopped (not deferred) before user actors are stopped and grains are poisoned.",
 		assumptions: []string{"messages in flight during shutdown beyond the gate (already enqueued user messages may be dropped with their mailbox)", "bounded shutdown time (context expiry skips remaining grains, logged)"},
 		minObl:     20,
 		run:        runC17,
